@@ -112,6 +112,27 @@ def rule_e_loop_exit(ctx, cfg='prod-all'):
 
 
 # ---------------------------------------------------------------------------------- C14
+def rule_issuing_functions_gated(ctx, cfg='prod-all', scope=('cl03::blind::',)):
+    """Every function of the issuance module that takes the issuer's secret key *and* a commitment supplied from outside signs that commitment:
+    it has to check a proof of knowledge for it (call `verify_proof`) before the key is used.  `blind_sign` does (judged path by path by
+    `rule_blind_sign_gated`); a second entry point that takes a commitment but no proof re-issues on whatever it is given."""
+    prog, eng = ctx.prog(cfg), ctx.eng(cfg)
+    n = 0
+    for p, b in sorted(prog.bodies.items()):
+        if b.from_expansion or b.kind == 'Closure' or not p.startswith(scope):
+            continue
+        ksk = b.param_index('sk')
+        kc = [k for k in range(1, b.arg_count + 1) if 'CL03Commitment' in b.local_ty(k) and 'Key' not in b.local_ty(k)]
+        if ksk is None or not kc:
+            continue
+        n += 1
+        gated = any((local_target(eng, t) or '').endswith('verify_proof') for bi, t in b.calls())
+        yield Ob('RF-D', '%s#commitment-proven' % p, gated,
+                 'a function that signs a commitment handed in from outside with the secret key checks a proof of knowledge for that commitment first',
+                 b.span, fact={'commitment_parameters': [b.local_name(k) for k in kc], 'calls_verify_proof': gated}, expected='verify_proof before the key is used')
+    yield Ob('RF-D', 'cl03#issuing-functions', n >= 2, 'issuing functions (secret key + commitment) examined', '', fact=n, expected='>= 2', nontrivial=False)
+
+
 def rule_blind_sign_gated(ctx, cfg='prod-all'):
     """every use of the secret key in blind_sign is dominated by the `verify_proof == true` edge."""
     prog, eng, ga = ctx.prog(cfg), ctx.eng(cfg), ctx.gates(cfg)
@@ -456,6 +477,179 @@ def rule_every_leaf_gates(ctx, cfg='prod-all', which=('pok', 'zkpok')):
             yield Ob('RF-K', '%s#leaf:%s' % (body.path, '.'.join(path)), fails == 0,
                      'transmitted field must influence a comparison every accept path depends on (altering it must be able to change the verdict)',
                      body.span, fact={'accept_paths': len(aps), 'paths_without_gate': fails, 'type': ty}, expected='gates acceptance')
+
+
+# ---------------------------------------------------------------------------------- prover and verifier agree on the interval of a response
+def _expr_shape(zf, op, depth=0):
+    """the arithmetic expression an operand holds, as a nested tuple of operation names with parameter names / literals at the leaves
+    (borrows, copies, `Integer::from`, `complete()` are transparent); None where it cannot be followed"""
+    from rf_bits import origin_call
+    b = zf.body
+    if depth > 14 or op is None:
+        return None
+    if op.get('k') == 'const':
+        return ('lit', str(op.get('int', op.get('disp'))))
+    if op.get('k') not in ('copy', 'move'):
+        return None
+    root, path = zf.fd.resolve_place(op['pl'])
+    if zf.fd.is_param(root):
+        return ('leaf', (b.local_name(root) + ''.join('.' + x for x in path)).split('.')[-1])
+    oc = origin_call(zf, op['pl']['l']) or (origin_call(zf, root) if root != op['pl']['l'] else None)
+    if oc is None and len(zf.fd.defs.get(root, [])) > 1 and b.locals[root].get('name'):
+        return ('leaf', b.locals[root]['name'])        # a named variable assigned on several paths (`C` inside the retry loop)
+    if oc is None:
+        d = zf.single_def(op['pl']['l'])
+        if d and d[0] == 'assign' and d[2]['rv']['k'] == 'binop':
+            rv = d[2]['rv']
+            return (rv['op'].replace('WithOverflow', ''), _expr_shape(zf, rv['a'], depth + 1), _expr_shape(zf, rv['b'], depth + 1))
+        if d and d[0] == 'assign' and d[2]['rv']['k'] in ('use', 'cast') and d[2]['rv'].get('op'):
+            return _expr_shape(zf, d[2]['rv']['op'], depth + 1)
+        return None
+    cal = oc.get('callee') or ''
+    short = cal.split('::')[-1]
+    if cal in ('std::convert::From::from', 'std::convert::Into::into', 'rug::Complete::complete', 'std::clone::Clone::clone', 'std::borrow::ToOwned::to_owned') and oc['args']:
+        return _expr_shape(zf, oc['args'][0], depth + 1)
+    kids = tuple(_expr_shape(zf, a, depth + 1) for a in oc['args'])
+    if any(k is None for k in kids):
+        return None
+    return (short,) + kids
+
+
+def rule_remainder_bound(ctx, cfg='prod-all'):
+    """Boudot's proof with tolerance writes x - a' = x1^2 + x2 and proves x2 to lie in an interval whose width comes from the *remainder* bound
+    2 * sqrt(b - a): that is what makes the overall tolerance theta small against 2^T.  Handing the larger-interval sub-proof the upper end of the
+    range itself as its bound makes the interval it proves about 2^(T + t + l) * b wide, so x2 may be any value up to that (negative included)
+    and a commitment to a value far outside [a, b] gets an accepted range proof.  Decided on the expression handed over as the bound of the
+    larger-interval sub-proofs: it is computed from a square root."""
+    prog, za, eng = ctx.prog(cfg), ctx.zone(cfg), ctx.eng(cfg)
+    n = 0
+    for fn in (RP + 'proof_of_tolerance_specific', RP + 'verify_of_tolerance_specific'):
+        b = prog.bodies.get(fn)
+        if b is None:
+            raise AnchorMissing(fn)
+        za.summary(fn)
+        zf = za.zf(fn)
+        k = 0
+        for bi, t in b.calls():
+            tgt = local_target(eng, t) or ''
+            if not tgt.endswith('large_interval_specific'):
+                continue
+            kb = prog.bodies[tgt].param_index('b')
+            if kb is None or kb - 1 >= len(t['args']):
+                raise AnchorMissing('%s: parameter b' % tgt)
+            sh = _expr_shape(zf, t['args'][kb - 1])
+            k += 1
+            n += 1
+            ok = sh is not None and 'sqrt' in str(sh)
+            yield Ob('RF-Q', '%s#remainder-bound[%d]' % (fn, k), ok,
+                     'the bound of the larger-interval sub-proof is the bound of the remainder of the square decomposition (computed from a square root of the width), not the end of the range',
+                     '%s L%s' % (b.file(), t.get('line')), fact={'bound_expression': str(sh)}, expected='an expression over sqrt(b - a)')
+    yield Ob('RF-Q', 'cl03#remainder-bounds', n >= 4, 'larger-interval sub-proof calls examined', '', fact=n, expected='>= 4', nontrivial=False)
+
+
+def _eval_shape(sh, env):
+    """value of an expression shape for an assignment of integers to its leaves (None if an operation is not one of the arithmetic ones)"""
+    k = sh[0]
+    if k == 'lit':
+        try:
+            return int(sh[1].split('_')[0])
+        except ValueError:
+            return None
+    if k == 'leaf':
+        return env.setdefault(sh[1], 3 + 2 * len(env))
+    vs = [_eval_shape(x, env) for x in sh[1:]]
+    if any(v is None for v in vs):
+        return None
+    op = k.lower()
+    if op in ('mul',) and len(vs) == 2:
+        return vs[0] * vs[1]
+    if op in ('add',) and len(vs) == 2:
+        return vs[0] + vs[1]
+    if op in ('sub',) and len(vs) == 2:
+        return vs[0] - vs[1]
+    if op in ('neg',) and len(vs) == 1:
+        return -vs[0]
+    if op in ('pow',) and len(vs) == 2 and 0 <= vs[1] < 4096:
+        return vs[0] ** vs[1]
+    if op in ('shl',) and len(vs) == 2 and 0 <= vs[1] < 4096:
+        return vs[0] << vs[1]
+    if op in ('rem',) and len(vs) == 2 and vs[1] != 0:
+        return vs[0] % vs[1]
+    return None
+
+
+def _same_function(shapes_a, shapes_b):
+    """do the two lists of expression shapes compute the same values?  Compared as values at several assignments of the leaves (an
+    algebraic rewrite of one side is the same function; string equality of the shapes would not see that)"""
+    if not shapes_a or len(shapes_a) != len(shapes_b):
+        return False
+    for seed in range(6):
+        env0 = {}
+        va, vb = [], []
+        for sh in shapes_a:
+            env = {k: v + seed * (7 + 2 * i) for i, (k, v) in enumerate(sorted(env0.items()))}
+            va.append(_eval_shape(sh, env0 if seed == 0 else _seeded(env0, seed)))
+        for sh in shapes_b:
+            vb.append(_eval_shape(sh, env0 if seed == 0 else _seeded(env0, seed)))
+        if None in va or None in vb or sorted(va) != sorted(vb):
+            return False
+    return True
+
+
+class _seeded(dict):
+    """leaf assignment that derives a value from the leaf name and a seed (the same leaf gets the same value on both sides)"""
+    def __init__(self, base, seed):
+        super().__init__()
+        self.seed = seed
+
+    def setdefault(self, k, d=None):
+        if k not in self:
+            self[k] = 5 + (sum(ord(c) for c in k) * (self.seed + 3)) % 97
+        return self[k]
+
+
+def rule_response_interval_agreement(ctx, cfg='prod-all'):
+    """Boudot's larger-interval proof: the prover repeats its draw until the response D_1 lies in an interval, and the verifier refuses a
+    response outside that interval.  The two intervals have to be the same one: where the prover's is larger, an honest proof whose response
+    falls into the difference is rejected.  Decided on the expressions D_1 is compared with on both sides (same operations over the same
+    parameters and literals), compared as functions: evaluated at several
+    assignments of the parameters."""
+    prog, za = ctx.prog(cfg), ctx.zone(cfg)
+    sides = {}
+    for role, fn in (('prover', RP + 'proof_large_interval_specific'), ('verifier', RP + 'verify_large_interval_specific')):
+        b = prog.bodies.get(fn)
+        if b is None:
+            raise AnchorMissing(fn)
+        za.summary(fn)
+        zf = za.zf(fn)
+        bounds = set()
+        for bi, t in b.calls():
+            cal = t.get('callee') or ''
+            if not cal.endswith(('PartialOrd::le', 'PartialOrd::lt', 'PartialOrd::ge', 'PartialOrd::gt')) or len(t['args']) != 2:
+                continue
+            shapes = [_expr_shape(zf, a) for a in t['args']]
+            names = []
+            for a in t['args']:
+                nm = None
+                if a.get('k') in ('copy', 'move'):
+                    r0, p0 = zf.fd.resolve_place(a['pl'])
+                    nm = (b.local_name(r0) or '') + ''.join('.' + x for x in p0)
+                names.append(nm)
+            for k in (0, 1):
+                if names[k] and names[k].split('.')[-1] == 'D_1' and shapes[1 - k] is not None:
+                    side = 'upper' if (cal.endswith(('::le', '::lt')) == (k == 0)) else 'lower'
+                    bounds.add((side, shapes[1 - k]))
+        sides[role] = bounds
+    up = {r: sorted(str(x[1]) for x in sides[r] if x[0] == 'upper') for r in sides}
+    lo = {r: sorted(str(x[1]) for x in sides[r] if x[0] == 'lower') for r in sides}
+    ups = {r: [x[1] for x in sorted(sides[r], key=str) if x[0] == 'upper'] for r in sides}
+    los = {r: [x[1] for x in sorted(sides[r], key=str) if x[0] == 'lower'] for r in sides}
+    yield Ob('RF-O', RP + 'proof_large_interval_specific#D_1-upper-bound', _same_function(ups['prover'], ups['verifier']),
+             'the prover keeps a response D_1 only below the bound the verifier accepts (same expression on both sides)', prog.bodies[RP + 'proof_large_interval_specific'].span,
+             fact=up, expected='the same function of the parameters')
+    yield Ob('RF-O', RP + 'proof_large_interval_specific#D_1-lower-bound', _same_function(los['prover'], los['verifier']),
+             'the prover keeps a response D_1 only above the bound the verifier accepts (same expression on both sides)', prog.bodies[RP + 'proof_large_interval_specific'].span,
+             fact=lo, expected='the same function of the parameters')
 
 
 # ---------------------------------------------------------------------------------- the statement is part of the Fiat-Shamir challenge
